@@ -115,7 +115,7 @@ func (w *verifWorld) inv(check func(bool, string)) {
 		sc := w.conn(i)
 		r, inPool := gb.scRefs[sc]
 		s, hasState := gb.scStates[sc]
-		check(inPool == hasState, "C03,C04: I-pool scRefs and scStates have different domains")
+		check(inPool == hasState, "C03,C04,C05: I-pool scRefs and scStates have different domains")
 		check(verifImplies(inPool, r != nil), "C03,C05: I-pool nil slot for a pool connection")
 		check(verifImplies(inPool, verifOrElse(r, w.refs[0]).subConn == sc), "C03,C07: I-pool slot of a pool connection does not point back at it")
 		check(verifImplies(inPool, w.listed(r)), "C03,C09: I-list slot of a pool connection is not in scRefList")
@@ -326,6 +326,11 @@ func (w *verifWorld) fill(sfx string) {
 		verifAssume(!r.lastResp.Before(time.Unix(0, 0)))
 		r.deCalls = verifU32("deCalls" + d + sfx)
 		r.refreshCnt = verifU32("refreshCnt" + d + sfx)
+		if sfx != "" && verifBool("stateChanged"+d+sfx) {
+			// a state report for this channel arrived meanwhile: its signal was closed and re-created
+			close(r.stateSignal)
+			r.stateSignal = make(chan struct{})
+		}
 	}
 	for i := 0; i < vM; i++ {
 		sc := balancer.SubConn(w.scs[i])
